@@ -145,8 +145,10 @@ void reset_qsbr() {
   if (unodb::qsbr_state::get_thread_count(st) != 1 || q.orphaned_previous_interval_dealloc_requests.load() != nullptr ||
       q.orphaned_current_interval_dealloc_requests.load() != nullptr || !me.previous_interval_dealloc_requests.empty() ||
       !me.current_interval_dealloc_requests.empty()) {
-    std::fprintf(stderr, "QSBR not idle between executions\n");
-    std::_Exit(vsched::EXIT_USAGE);
+    // the previous execution (its schedule is still in g_sched.trace) left QSBR in a state that a correct implementation
+    // cannot be in after every worker left and the controller quiesced twice
+    g_sched.fatal(vsched::EXIT_ORACLE_FATAL,
+                  "oracle C06: QSBR is not idle after all threads left (thread count, orphan lists or pending requests are off)");
   }
   q.state.store((std::uint64_t{1} << 32U) | 1U);
   me.last_seen_quiescent_state_epoch = unodb::qsbr_epoch{0};
@@ -260,6 +262,19 @@ void op_U(int t) {
   H.log << "T" << t << ":U) ";
 }
 
+// barrier k is passed once every thread whose program contains at least k barriers has arrived at its k-th one (or has
+// finished its program); barriers let a program family reach deep QSBR states (several completed rounds) without spending
+// scheduling deviations on the way there
+std::vector<int> g_barriers_arrived;  // per thread
+std::vector<int> g_barriers_total;    // per thread: number of B in its program
+bool barrier_open(int k) {
+  for (int u = 0; u < H.n; ++u)
+    if (g_barriers_total[static_cast<std::size_t>(u)] >= k && g_barriers_arrived[static_cast<std::size_t>(u)] < k &&
+        !H.program_done[static_cast<std::size_t>(u)])
+      return false;
+  return true;
+}
+
 bool others_done(int t) {
   for (int u = 0; u < H.n; ++u)
     if (u != t && !H.program_done[static_cast<std::size_t>(u)]) return false;
@@ -366,6 +381,12 @@ void worker_main(int t) {
         H.log << "T" << t << ":W ";
         g_sched.wait_until([t] { return others_done(t); });
         break;
+      case 'B': {
+        const int k = ++g_barriers_arrived[static_cast<std::size_t>(t)];
+        H.log << "T" << t << ":B" << k << " ";
+        g_sched.wait_until([k] { return barrier_open(k); });
+        break;
+      }
       default:
         std::_Exit(vsched::EXIT_USAGE);
     }
@@ -396,7 +417,7 @@ bool valid_program(const std::string& p) {
       reg = false;
     } else if (c == 'Q' || c == 'R' || c == 'A') {
       if (!reg) return false;
-    } else if (c != 'W') {
+    } else if (c != 'W' && c != 'B') {
       return false;
     }
   }
@@ -417,6 +438,10 @@ bool run_one(const std::vector<std::uint8_t>& prefix, const std::vector<vsched::
   H.exec_had_concurrent_free = false;
   H.log.str("");
   g_drain_turn = 0;
+  g_barriers_arrived.assign(n, 0);
+  g_barriers_total.assign(n, 0);
+  for (std::size_t i = 0; i < n; ++i)
+    g_barriers_total[i] = static_cast<int>(std::count(H.sc.progs[i].begin(), H.sc.progs[i].end(), 'B'));
   // one pre-published object per R in the programs
   std::size_t nr = 0;
   for (const auto& p : H.sc.progs) nr += static_cast<std::size_t>(std::count(p.begin(), p.end(), 'R'));
@@ -453,6 +478,12 @@ bool run_one(const std::vector<std::uint8_t>& prefix, const std::vector<vsched::
     if (pending) H.violation("C06", "C06/lost-request", "a deferred deallocation request was lost: still pending or never executed after every thread left and the last one quiesced twice");
     const auto st = q.state.load();
     if (unodb::qsbr_state::get_thread_count(st) != 1) H.violation("C06", "C06/thread-count-final", "registered-thread count after all worker threads left is not 1");
+    // leave nothing behind for the next execution (whatever is wrong has been reported above)
+    me.previous_interval_dealloc_requests.clear();
+    me.current_interval_dealloc_requests.clear();
+    q.orphaned_previous_interval_dealloc_requests.store(nullptr);
+    q.orphaned_current_interval_dealloc_requests.store(nullptr);
+    q.state.store((std::uint64_t{1} << 32U) | 1U);
   }
   // release objects that were never retired
   for (auto& o : H.objs)
